@@ -300,6 +300,8 @@ fn vocabulary() -> Vec<String> {
         // near misses
         "bol", "boldd", "no_bold", "nobright", "brightred", "default", "reset", "no", "no-", "nono-bold", "no--bold", "underline",
         "inverse", "bold,", "red;blue", "noblue", "no-#123",
+        // invisible characters glued to valid words (none of them is whitespace)
+        "\u{feff}", "\u{feff}red", "red\u{feff}", "\u{200b}bold", "bold\u{200d}", "\u{2060}red", "re\u{ad}d",
         // junk
         "\u{e9}", "b\u{43e}ld", "\u{ff32}\u{ff25}\u{ff24}", "blin\u{212a}", "\u{0}", "re\u{301}d", "\u{1f600}",
     ] {
@@ -635,6 +637,26 @@ fn main_check(ctx: &Ctx) -> Outcome {
         acc = acc.merge(a);
     }
 
+    // (7) long descriptions: one word repeated n times (n around 16 .. 5000), then a tail word
+    {
+        let mut a = Acc::default();
+        let mut s = String::new();
+        for n in [15usize, 16, 17, 31, 32, 33, 63, 64, 65, 255, 256, 257, 1023, 1024, 1025, 5000] {
+            for word in ["bold", "nobold", "ul no-ul", "BOLD  italic", "dim\treverse"] {
+                for tail in ["", "red", "red blue", "red blue green", "x", "#abc", "strike"] {
+                    s.clear();
+                    for _ in 0..n {
+                        s.push_str(word);
+                        s.push(' ');
+                    }
+                    s.push_str(tail);
+                    run_case("long descriptions", &s, &mut a, &col, false);
+                }
+            }
+        }
+        out.push_part(json!({"part":"7","system":"long descriptions: 16 lengths from 15 to 5000 repetitions x 5 words x 7 tails","cases":a.evals}));
+        acc = acc.merge(a);
+    }
     // (6) call histories: the result may depend on nothing but the argument.  Every ordered pair of inputs (and every
     //     triple over a smaller set) is parsed in order on a fresh thread and every answer compared with the model.
     {
